@@ -280,3 +280,77 @@ fn c14_quantile_skipnan_opt_higher_l3() {
 fn c14_quantile_skipnan_opt_max_l4() {
     quantile_skipnan_opt::<4>(2);
 }
+
+/// 3-D (and IxDyn): the index forms and the indexed fold report LOGICAL indexes, also through
+/// cyclically permuted axes (stride order a 3-cycle) and when the extremum lies outside the first
+/// slab along axis 0.
+fn skipnan_3d(perm: u8) {
+    let vals: [Option<i8>; 8] = kani::any(); // logical (i, j, k) of a 2x2x2 array = vals[4 i + 2 j + k]
+    // store so that the requested axis permutation of the parent gives back the logical array
+    let parent = match perm {
+        0 => Array3::from_shape_fn((2, 2, 2), |(i, j, k)| vals[4 * i + 2 * j + k]),
+        // parent axes (a, b, c); view = parent.permuted_axes([1, 2, 0]) has logical (i, j, k) = parent[k, i, j]
+        1 => Array3::from_shape_fn((2, 2, 2), |(a, b, c)| vals[4 * b + 2 * c + a]),
+        // view = parent.permuted_axes([2, 0, 1]) has logical (i, j, k) = parent[j, k, i]
+        _ => Array3::from_shape_fn((2, 2, 2), |(a, b, c)| vals[4 * c + 2 * a + b]),
+    };
+    let v = match perm {
+        0 => parent.view(),
+        1 => parent.view().permuted_axes([1, 2, 0]),
+        _ => parent.view().permuted_axes([2, 0, 1]),
+    };
+    let mut cnt = 0usize;
+    let mut omin = 0i8;
+    let mut omax = 0i8;
+    let mut oisum = 0u32;
+    let mut t = 0;
+    while t < 8 {
+        if let Some(x) = vals[t] {
+            if cnt == 0 || x < omin {
+                omin = x;
+            }
+            if cnt == 0 || x > omax {
+                omax = x;
+            }
+            cnt += 1;
+            oisum = mix(oisum, (x as u8 as u32) ^ ((t as u32 + 1) << 12));
+        }
+        t += 1;
+    }
+    match (v.argmin_skipnan(), v.argmax_skipnan()) {
+        (Ok((i, j, k)), Ok((a, b, c))) => {
+            assert!(cnt > 0);
+            assert!(i < 2 && j < 2 && k < 2 && a < 2 && b < 2 && c < 2, "indexes inside the logical shape");
+            assert!(vals[4 * i + 2 * j + k] == Some(omin) && vals[4 * a + 2 * b + c] == Some(omax), "index forms designate a position of the logical array holding the extremum");
+        }
+        (Err(_), Err(_)) => assert!(cnt == 0),
+        _ => assert!(false),
+    }
+    let isum = v.indexed_fold_skipnan(0u32, |acc, ((i, j, k), x)| mix(acc, (**x as u8 as u32) ^ (((4 * i + 2 * j + k) as u32 + 1) << 12)));
+    assert!(isum == oisum, "indexed_fold_skipnan pairs each remaining element with its logical index");
+    let d = v.into_dyn();
+    if let Ok(ix) = d.argmin_skipnan() {
+        assert!(ix.ndim() == 3 && vals[4 * ix[0] + 2 * ix[1] + ix[2]] == Some(omin), "IxDyn index form");
+    }
+    kani::cover!(cnt == 8 && vals[6] == Some(-128) && vals[3] == Some(127), "W: minimum at (1,1,0), maximum at (0,1,1)");
+    kani::cover!(cnt == 0, "W: all missing");
+}
+
+//@ prop=C14,C20:thorough tier=quick mem=8 timeout=3000 inst="argmin/argmax_skipnan, indexed_fold_skipnan on ArrayView3<Option<i8>> 2x2x2 seen through permuted_axes([1,2,0]), and its into_dyn()" bounds="all None placements and payloads; unwind 12"
+#[kani::proof]
+#[kani::unwind(12)]
+fn c14_skipnan_3d_cyclic() {
+    skipnan_3d(1);
+}
+//@ prop=C14,C20:thorough tier=thorough mem=8 timeout=5400 inst="argmin/argmax_skipnan, indexed_fold_skipnan on Array3<Option<i8>> 2x2x2 standard layout, and IxDyn" bounds="all None placements and payloads; unwind 12"
+#[kani::proof]
+#[kani::unwind(12)]
+fn c14_skipnan_3d_standard() {
+    skipnan_3d(0);
+}
+//@ prop=C14,C20:thorough tier=thorough mem=8 timeout=5400 inst="argmin/argmax_skipnan, indexed_fold_skipnan on ArrayView3<Option<i8>> 2x2x2 through permuted_axes([2,0,1])" bounds="all None placements and payloads; unwind 12"
+#[kani::proof]
+#[kani::unwind(12)]
+fn c14_skipnan_3d_cyclic2() {
+    skipnan_3d(2);
+}
